@@ -13,7 +13,16 @@
 #include "llbuild/BuildSystem/BuildKey.h"
 #include "llbuild/BuildSystem/BuildValue.h"
 
+#include <algorithm>
 #include <set>
+
+// distinct 64-bit hashes, counted by sort + unique at the end (8 bytes per insertion instead of a tree node)
+struct HashBag {
+  std::vector<uint64_t> v;
+  void insert(uint64_t h) { v.push_back(h); if (v.size() >= (1u << 24)) compact(); }
+  void compact() { std::sort(v.begin(), v.end()); v.erase(std::unique(v.begin(), v.end()), v.end()); }
+  size_t size() { compact(); return v.size(); }
+};
 #include <unordered_map>
 
 using namespace llbuild;
@@ -399,7 +408,7 @@ int main(int argc, char** argv) {
   }
   unsigned long keysN = 0, valsN = 0, roundTrips = 0, canon = 0, injPairs = 0, collisionsChecked = 0, accessorChecks = 0, copies = 0, kindChecks = 0;
   std::map<std::string, unsigned long> byKind, byMutation;
-  std::set<uint64_t> distinct;
+  HashBag distinct;
   std::unordered_map<std::string, std::string> seenK, seenV;  // encoding -> model serialisation
   const size_t seenCap = 150000;
   std::string sampleK, sampleV;
